@@ -52,6 +52,48 @@ func FuncKey(f *ssa.Function) string {
 	return s
 }
 
+// allowedFn: f is one of the functions named in ok, or runs only as part of one: a function literal of an allowed function, or an
+// unexported function whose every use in the package is a plain call from a function for which the same holds (a helper carved
+// out of it).
+func allowedFn(p *load.Program, f *ssa.Function, ok map[string]bool, depth int) bool {
+	if ok[FuncKey(f)] {
+		return true
+	}
+	if depth > 3 {
+		return false
+	}
+	if par := f.Parent(); par != nil {
+		return allowedFn(p, par, ok, depth+1)
+	}
+	if f.Object() != nil && f.Object().Exported() {
+		return false
+	}
+	n := 0
+	for _, g := range allFunctions(p) {
+		if inTest(p, g) {
+			continue
+		}
+		for _, b := range g.Blocks {
+			for _, in := range b.Instrs {
+				for _, op := range in.Operands(nil) {
+					if op == nil || *op != ssa.Value(f) {
+						continue
+					}
+					c, isCall := in.(*ssa.Call)
+					if !isCall || c.Call.Value != ssa.Value(f) {
+						return false // deferred, spawned or used as a value
+					}
+					n++
+					if g == f || !allowedFn(p, g, ok, depth+1) {
+						return false
+					}
+				}
+			}
+		}
+	}
+	return n > 0
+}
+
 func inTest(p *load.Program, f *ssa.Function) bool {
 	return strings.HasSuffix(p.Fset.Position(f.Pos()).Filename, "_test.go")
 }
@@ -96,7 +138,7 @@ func WhoMayCall(p *load.Program, r *report.Report, rule, key, callee string, all
 				}
 				site := FuncKey(f) + " at " + p.Pos(in.Pos())
 				sites = append(sites, site)
-				if !ok[FuncKey(f)] {
+				if !allowedFn(p, f, ok, 0) {
 					bad = append(bad, site)
 				}
 			}
@@ -175,7 +217,7 @@ func WhoMayStoreField(p *load.Program, r *report.Report, rule, key, typ, field s
 				}
 				site := FuncKey(f) + " at " + p.Pos(st.Pos())
 				sites = append(sites, site)
-				if !ok[FuncKey(f)] {
+				if !allowedFn(p, f, ok, 0) {
 					bad = append(bad, site)
 				}
 			}
@@ -222,7 +264,7 @@ func WhoMayMutateMapField(p *load.Program, r *report.Report, rule, key, typ, fie
 					}
 					site := FuncKey(f) + " at " + p.Pos(x.Pos())
 					ins = append(ins, site)
-					if !okI[FuncKey(f)] {
+					if !allowedFn(p, f, okI, 0) {
 						bad = append(bad, "insert in "+site)
 					}
 				case ssa.CallInstruction:
@@ -232,7 +274,7 @@ func WhoMayMutateMapField(p *load.Program, r *report.Report, rule, key, typ, fie
 					}
 					site := FuncKey(f) + " at " + p.Pos(x.Pos())
 					del = append(del, site)
-					if !okD[FuncKey(f)] {
+					if !allowedFn(p, f, okD, 0) {
 						bad = append(bad, bi.Name()+" in "+site)
 					}
 				}
